@@ -13,6 +13,8 @@ def run(rep, tier, seed):
     # {{yield content}} where no content was supplied renders nothing - also in an execution that follows one which
     # failed while content was installed (histories of Gen_C10 around the content-carrying wrappers)
     gen_and_replay(rep, wd, exe, "Gen_C10.tla", "C08_content_after_failure", {"Depth": 1}, {"Kinds": "ContentKinds"}, trace_execs=0)
+    # a block yielded from Go (Runtime.YieldBlock) resolves like {{yield name()}} at the call site: the Gen_C18 call sites
+    gen_and_replay(rep, wd, exe, "Gen_C18.tla", "C08_yieldblock_api", {"Depth": 1, "Families": '{"site"}'}, {}, trace_execs=0)
     rep.exhaustive = True
 
 def replay(path):
